@@ -32,7 +32,7 @@ ASSUMPTIONS = [
 ALPHABET = "format x scale x placement x density x request"
 BOUND = {"quick": "all formats, 4 scales x 4 placements x 2 densities x 4 requests (where expressible), buffer 8192",
          "thorough": "same with buffers {512, 8192, 65536}"}
-EXPECT_OUTCOMES = ["qcow2", "vmdk-hosted", "vmdk-sesparse", "vhdx", "vhd", "vdi", "hds2", "hds1"]
+EXPECT_OUTCOMES = ["qcow2", "vmdk-hosted", "vmdk-stream", "vmdk-sesparse", "vhdx", "vhd", "vdi", "hds2", "hds1"]
 MB = 1 << 20
 GROUPS = 16
 GROUP_UNITS = 400
@@ -42,6 +42,8 @@ FORMATS = {
     "qcow2": dict(unit=65536, scales={"small": 1 << 14, "4g": (1 << 16) + 77, "2t": (1 << 25) + 5, "limit": 1 << 30},
                   places=["low", "b32", "s32", "top"]),
     "vmdk-hosted": dict(unit=65536, scales={"small": 1 << 14, "4g": (1 << 16) + 77, "limit": (1 << 25) - 1},
+                        places=["low", "b32", "top"]),
+    "vmdk-stream": dict(unit=65536, scales={"small": 1 << 14, "4g": (1 << 16) + 77, "limit": (1 << 25) - 1},
                         places=["low", "b32", "top"]),
     "vmdk-sesparse": dict(unit=4096, scales={"small": 1 << 16, "4g": (1 << 20) + 77, "2t": (1 << 29) + 5, "limit": 1 << 32},
                           places=["low", "b32", "s32", "top"]),
@@ -132,6 +134,20 @@ def _build(fmt, total, place, placed):
         grain = unit // 512
         tb, db = {"low": (None, None), "b32": ((1 << 23) + 64, (1 << 24)), "top": ((1 << 32) - (1 << 22), (1 << 32) - (1 << 21))}[place]
         img = B.build_hosted(states, slots, grain, 512, total * grain - 3, 0, total, table_base=tb, data_base=db)
+        model = B.model(states, grain, total * grain - 3, 0, total)
+        return img, model, lambda fh: VMDK(fh)
+    if fmt == "vmdk-stream":
+        from dissect.hypervisor.disk.vmdk import VMDK
+
+        from mc.builders import vmdk as B
+
+        # compressed grains (embedded LBA, footer-located GD, tables behind the data as in stream-optimized files); the
+        # payload is the compressible pattern layer: records of a few sectors at a stride of 8 sectors
+        states, slots = _dense_lists(placed, total, B.CDATA, HOLE, fmt=fmt)
+        grain = unit // 512
+        db = {"low": None, "b32": (1 << 23) + 64, "top": (1 << 32) - (1 << 22)}[place]
+        img = B.build_hosted(states, slots, grain, 512, total * grain - 3, 0, total, data_base=db, footer=True,
+                             compressed=True, stride=8)
         model = B.model(states, grain, total * grain - 3, 0, total)
         return img, model, lambda fh: VMDK(fh)
     if fmt == "vmdk-sesparse":
